@@ -77,6 +77,38 @@ BUDGET_PROGRAMS = [
 ]
 
 
+def systematic_programs():
+    """all unordered pairs of single operations from every relevant initial state"""
+    out = []
+    bstates = [
+        ("closed, empty history, threshold 2", BCFG, [], 1),
+        ("closed, one failure logged, threshold 2", BCFG, [F(0)], 1),
+        ("closed, threshold 1", BCFG1, [], 1),
+        ("open, before the recovery timeout", BCFG1, [F(0)], 1),
+        ("open, recovery timeout elapsed", BCFG1, [F(0)], 2),
+        ("half-open, probe in flight", BCFG1, [F(0), A(2)], 2),
+        ("half-open, probe slot free", BCFG1, [F(0), A(2), CA(2)], 2),
+        ("half-open (threshold 2), probe in flight", BCFG, [F(0), F(0), A(2)], 2),
+    ]
+    bops = [("allow", lambda t: A(t)), ("ok", lambda t: OK(t)), ("fail", lambda t: F(t)),
+            ("fail-uncounted", lambda t: F(t, "UNKNOWN")), ("cancel", lambda t: CA(t))]
+    for sname, cfg, setup, t in bstates:
+        for i, (n1, o1) in enumerate(bops):
+            for n2, o2 in bops[i:]:
+                out.append(("breaker", f"{n1} || {n2} from {sname}", cfg, setup, [[o1(t)], [o2(t)]]))
+    ustates = [
+        ("empty", UCFG, [], 1), ("one fresh grant", UCFG, [C(0)], 1), ("full, fresh", UCFG, [C(0), C(0)], 1),
+        ("full, both grants expiring now", UCFG, [C(0), C(0)], 4),
+        ("full, one grant expiring now", UCFG, [C(0), C(2)], 4),
+    ]
+    uops = [("consume", lambda t: C(t)), ("consume2", lambda t: C(t, 2)), ("remaining", lambda t: RM(t))]
+    for sname, cfg, setup, t in ustates:
+        for i, (n1, o1) in enumerate(uops):
+            for n2, o2 in uops[i:]:
+                out.append(("budget", f"{n1} || {n2} from {sname}", cfg, setup, [[o1(t)], [o2(t)]]))
+    return out
+
+
 class _Exec:
     """One execution: a fresh real component with its lock replaced by a scheduler lock."""
 
@@ -207,6 +239,11 @@ def check(tier: str) -> Report:
             total += n
             per_program[name] = {"schedules": n, "distinct_histories": len(hs)}
             histories += hs
+    for comp, name, cfg, setup, programs in systematic_programs():
+        n, hs = run_program(comp, name, cfg, setup, programs, bound - 1, cap)
+        total += n
+        per_program[name] = {"schedules": n, "distinct_histories": len(hs)}
+        histories += hs
     for h in histories:
         if h["errors"]:
             raise Machinery(f"harness error inside a worker thread: {h['errors']}")
